@@ -1,5 +1,6 @@
 import TxVerif.Props.C14
 import TxVerif.Tie.Skeleton
+import TxVerif.Props.C14Release
 open TxVerif
 #print axioms resize_preserves
 #print axioms limit_persisted
@@ -9,3 +10,10 @@ open TxVerif
 #print axioms alloc_within_limit_c14
 #print axioms Tie.withInitTx_balanced
 #print axioms Tie.beginTx_ops
+#print axioms releaseOverflow_subset
+#print axioms releaseOverflow_contiguous
+#print axioms releaseOverflow_maximal
+#print axioms commit_keeps_live_data
+#print axioms commit_keeps_data_pages
+#print axioms commit_lists_prefix
+#print axioms commit_keeps_live_meta_partial
